@@ -148,6 +148,26 @@ void pathLaws(Ctx& ctx, const std::vector<std::string>& S, const std::string& la
 		ctx.count(!p.empty() && p[0] == '/' ? "path/split-rejoin-rooted" : "path/split-rejoin-relative");
 		if (!eq) { ctx.violation(std::string("C19/path/split-and-rejoin-differs/") + (!p.empty() && p[0] == '/' ? "rooted" : "relative"), label + " " + q(p), "GetDirectory " + q(dir) + " GetFilename " + q(file) + " re-joined " + q(joined)); return; }
 	}
+	// the same split-and-re-join law with a refused join in between: Append(dir, "/rooted") must throw and must not leave
+	// anything behind that the next join of that directory picks up; likewise a join of another directory first
+	{
+		std::string prevDir;
+		for (auto& p : S) {
+			std::string dir, file, joined; bool eq = false;
+			auto o0 = mc::guarded([&] { dir = XFile::GetDirectory(p); file = XFile::GetFilename(p); });
+			if (o0.cls != 'R') continue;
+			auto o1 = mc::guarded([&] { (void)XFile::Append(prevDir, "x"); });   // a successful join of the previous directory
+			(void)o1;
+			auto o2 = mc::guarded([&] { (void)XFile::Append(dir, "/rooted"); });   // a refused join of this directory
+			ctx.transition(3);
+			if (o2.cls == 'R') { ctx.violation("C19/path/rooted-second-operand-accepted", label + " Append(" + q(dir) + ",\"/rooted\")", ""); return; }
+			auto o3 = mc::guarded([&] { joined = XFile::Append(dir, file); eq = XFile::PathsAreEqual(joined, p); });
+			if (o3.cls != 'R') { prevDir = dir; continue; }
+			ctx.count("path/split-rejoin-after-a-refused-join");
+			if (!eq) { ctx.violation("C19/path/split-and-rejoin-differs/after-a-refused-join", label + " " + q(p), "GetDirectory " + q(dir) + " GetFilename " + q(file) + " re-joined " + q(joined) + " (after Append(" + q(prevDir) + ",x) and a refused Append(" + q(dir) + ",/rooted))"); return; }
+			prevDir = dir;
+		}
+	}
 	// replace the extension, then it matches in any letter case
 	static const char* exts[] = { "x", "X", ".x", "txt", ".Txt", "a1" };
 	for (auto& f : names) {
